@@ -10,6 +10,8 @@ import (
 	"os"
 	"path/filepath"
 	"sync"
+	"sync/atomic"
+	"time"
 
 	"golang.org/x/crypto/ssh"
 )
@@ -36,7 +38,32 @@ type sshSrv struct {
 	Sessions     []string // "shell" | "subsystem:netconf" | "exec:..."
 	PtyReq       int
 	conns        []net.Conn
+	stalled      int32 // when set, the server stops reading from its connections (a hung / black-holed peer)
 }
+
+// stallConn lets the harness freeze the server's side of a TCP connection.
+type stallConn struct {
+	net.Conn
+	s *sshSrv
+}
+
+func (c stallConn) Read(b []byte) (int, error) {
+	for atomic.LoadInt32(&c.s.stalled) != 0 {
+		time.Sleep(2 * time.Millisecond)
+	}
+
+	n, err := c.Conn.Read(b)
+
+	// a read that was already waiting in the kernel when the peer "hung" must not deliver either
+	for atomic.LoadInt32(&c.s.stalled) != 0 && err == nil {
+		time.Sleep(5 * time.Millisecond)
+	}
+
+	return n, err
+}
+
+// Stall makes the server stop processing anything the client sends from now on.
+func (s *sshSrv) Stall() { atomic.StoreInt32(&s.stalled, 1) }
 
 func newEd25519() (ssh.Signer, ed25519.PrivateKey, error) {
 	_, priv, err := ed25519.GenerateKey(rand.Reader)
@@ -112,7 +139,7 @@ func startSSHSrv(cfg sshSrvCfg) (*sshSrv, error) {
 			s.conns = append(s.conns, c)
 			s.mu.Unlock()
 
-			go s.serve(c, sc)
+			go s.serve(stallConn{c, s}, sc)
 		}
 	}()
 
